@@ -17,6 +17,7 @@ def task(seed):
     from phyclone.utils.dev import clear_proposal_dist_caches
 
     r = random.Random(seed)
+    bridge.clear_caches()  # the repository's own wrapper objects (sizes "as_shipped") start empty, with zeroed statistics, whatever this worker ran before
     sizes = {n: r.choice([1, 2, 3, 16, "shipped", "as_shipped"]) for n in NAMES}
     u = r.random()
     if u < 0.1:
